@@ -176,6 +176,18 @@ func checkC20(c CaseC20, info *Info) *Failure {
 		return failf("decode-error", "%v", err)
 	}
 	coreCast, _ := mxj.NewMapXml(doc, true)
+	// from here on the document sits in a buffer that held another document of the same length a moment ago, and the
+	// wrappers were called with that one: what a wrapper keeps between calls must be its own copy
+	doc = reuseBuffer(doc, true, func(b []byte) {
+		x2j.XmlToMap(b)
+		x2j.XmlToJson(b)
+		x2j.XmlValuesForPath(b, dpath)
+		x2j.XmlValuesForTag(b, c.Tag)
+		x2j.XmlPathsForTag(b, c.Tag)
+		x2j.XmlLeafNodes(b)
+		x2jw.ByteDocToMap(b)
+		x2jw.ByteDocToJson(b)
+	})
 	nonEmpty := 0
 	ne := func(n int) {
 		if n > 0 {
@@ -271,6 +283,16 @@ func checkC20(c CaseC20, info *Info) *Failure {
 			}
 			if l, e := x2j.XmlLeafPath(doc); e != nil || !reflect.DeepEqual(strSet(l), strSet(core2.LeafPaths())) {
 				return mism("x2j.XmlLeafPath (second call, option "+opt+")", strSet(l), strSet(core2.LeafPaths()))
+			}
+			if m, e := x2j.XmlToMap(doc); e != nil || !reflect.DeepEqual(m, map[string]interface{}(core2)) {
+				return mism("x2j.XmlToMap (second call, option "+opt+")", m, core2)
+			}
+			wantJ2, _ := core2.Json(c.Safe)
+			if j, e := x2j.XmlToJson(doc, c.Safe); e != nil || !bytes.Equal(j, wantJ2) {
+				return mism("x2j.XmlToJson (second call, option "+opt+")", string(j), string(wantJ2))
+			}
+			if m, e := x2jw.ByteDocToMap(doc); e != nil || !valEqual(m, map[string]interface{}(core2)) {
+				return mism("x2j-wrapper.ByteDocToMap (second call, option "+opt+")", m, core2)
 			}
 			mxj.CoerceKeysToLower(false)
 			mxj.SetAttrPrefix("-")
@@ -485,6 +507,19 @@ func checkC20(c CaseC20, info *Info) *Failure {
 	if jerr != nil {
 		return failf("error", "Json: %v", jerr)
 	}
+	if len(jb)%2 == 0 {
+		// a text of the same meaning that spells one top-level key twice (the decoder keeps the last occurrence)
+		jb = dupTopKey(jb, c.Value, c.Key)
+		info.Class("JSON text with a duplicated top-level key")
+	}
+	jb = reuseBuffer(jb, false, func(b []byte) {
+		j2x.JsonToMap(b)
+		j2x.JsonToXml(b)
+		j2x.JsonValuesForKeyPath(b, vpath)
+		j2x.JsonValuesForKey(b, c.Key)
+		j2x.JsonPathsForKey(b, c.Key)
+		j2x.JsonLeafNodes(b)
+	})
 	if m, e := j2x.JsonToMap(jb); e != nil || !reflect.DeepEqual(m, c.Value) {
 		return mism("j2x.JsonToMap", m, c.Value)
 	}
